@@ -35,9 +35,9 @@ TIMEOUT = 4.0
 PAUSE = 2.0
 POLL = 0.1
 FATES = ["deliver", "drop", "delay:4.3"]
-REQ = {"version": b"AVERS", "channel": b"CURCH", "watercare": b"GETWC", "ping": b"APING", "press": b"SPACK",
+REQ = {"status": b"STATU", "version": b"AVERS", "channel": b"CURCH", "watercare": b"GETWC", "ping": b"APING", "press": b"SPACK",
        "reminders": b"REQRM"}
-REP = {"version": b"SVERS", "channel": b"CHCUR", "watercare": b"WCGET", "ping": b"APING", "press": b"PACKS",
+REP = {"status": b"STATV", "version": b"SVERS", "channel": b"CHCUR", "watercare": b"WCGET", "ping": b"APING", "press": b"PACKS",
        "reminders": b"RMREQ"}
 OFFSETS = [0.0, 0.05, 0.1, 3.95, 6.05]
 
@@ -81,6 +81,11 @@ class E6(ARig):
             return spa._get_reminders_handler_func
         if who == "ping":
             return lambda: GeckoPingProtocolHandler.request(parms=spa.sendparms)
+        if who == "status":
+            # the status-block request engine (GeckoAsyncStructure.get): a 2-segment range
+            from geckolib.driver import GeckoStatusBlockProtocolHandler
+            return lambda: GeckoStatusBlockProtocolHandler.request(
+                proto.get_and_increment_sequence_counter(False), 100, 60, parms=spa.sendparms)
         if who == "press":
             return lambda: GeckoPackCommandProtocolHandler.keypress(
                 proto.get_and_increment_sequence_counter(True), spa.pack_type, 1, parms=spa.sendparms)
@@ -100,7 +105,11 @@ def _engine_run(ch, callers, offsets, R, window, faulty_verbs, fixed=None, noise
 
         await asyncio.sleep(off)
         enter[who] = rig.loop.time()
-        r = await rig.spa._protocol.get(rig.factory(who), None, R if who != "ping" else 1)
+        if who == "status":
+            r = await rig.spa.struct.get(rig.spa._protocol, rig.factory(who), retry_count=R)
+            r = True if r else None
+        else:
+            r = await rig.spa._protocol.get(rig.factory(who), None, R if who != "ping" else 1)
         results[who] = r
         done_at[who] = rig.loop.time()
 
@@ -161,6 +170,11 @@ def _engine_run(ch, callers, offsets, R, window, faulty_verbs, fixed=None, noise
             if who != "ping" and len(set(seqs)) != len(seqs):
                 why = ("not-fresh", f"{who}: attempts re-used a request object (sequence bytes {seqs})")
             myw = [w for w in rig.waits if w[0] == f"HARNESS:caller:{who}"]
+            if who == "status":
+                # one wait per segment: only the request budget, freshness, completion and one-in-flight clauses apply
+                if myw and done_at[who] - myw[0][2] > Rw * (TIMEOUT + PAUSE) + Rw * 3 * POLL + 0.5:
+                    why = ("slow", f"status: completed {done_at[who]-myw[0][2]:.2f}s after its first attempt")
+                continue
             if len(myw) != len(mine):
                 why = ("attempts", f"{who}: {len(mine)} transmissions but {len(myw)} waits")
             got = any(w[4] for w in myw)
@@ -438,6 +452,78 @@ def _gate_job(job):
     return None, res
 
 
+def _unconnected_job(job):
+    """A connection attempt that fails at step `lost` (every request of that verb is lost until the retries are used
+    up): the spa never reports CONNECTION_SPA_COMPLETE, so it is not connected - no gated API and no background loop
+    may put a command/query datagram on the wire afterwards (pings are not commands or queries)."""
+    lost, api = job
+    from ..vloop import VLoop
+    from ..vnet import VNet
+    from ..peers import SimPeer
+    from geckolib import AsyncTasks, GeckoAsyncSpa, GeckoAsyncSpaDescriptor
+
+    lib.reset_library()
+    loop = VLoop(Chooser())
+    net = VNet(loop)
+    peer = SimPeer()
+    net.add_peer(SPA_ADDR, peer)
+    peer.drop_request = lambda data, src: lost in data
+    events = []
+
+    async def on_event(event, **kw):
+        events.append(event.name)
+
+    with loop.running():
+        tasks = AsyncTasks()
+        spa = GeckoAsyncSpa(CLIENT_ID, GeckoAsyncSpaDescriptor(SPA_ID, "Spa", SPA_ADDR), tasks, on_event)
+        t = loop.create_task(spa.connect(), name="HARNESS:connect")
+    loop.run_for(400.0, t.done)
+    why = None
+    if not t.done():
+        raise core.HarnessError(f"C06: connect() with every {lost!r} lost did not return in 400 s")
+    if "CONNECTION_SPA_COMPLETE" in events:
+        raise core.HarnessError(f"C06: connection completed although every {lost!r} was lost")
+    mark = len(net.sent)
+    t_fail = loop.time()
+
+    async def call():
+        if api == "async_press":
+            await spa.async_press(1)
+        elif api == "set_value":
+            await spa._on_async_set_value(300, 1, 1)
+        elif api == "async_get_watercare":
+            await spa.async_get_watercare()
+        elif api == "async_set_watercare":
+            await spa.async_set_watercare(2)
+        elif api == "async_get_reminders":
+            await spa.async_get_reminders()
+
+    if api != "background":
+        with loop.running():
+            c = loop.create_task(call(), name="HARNESS:gated")
+        loop.run_for(80.0, c.done)
+        if c.done() and not c.cancelled() and c.exception() is not None and not isinstance(c.exception(), AssertionError):
+            why = ("raised", f"{api} on the unconnected spa raised {c.exception()!r}")
+    else:
+        loop.run_for(400.0)  # more than one refresh period and several ping periods
+    seen = []
+    for (tm, src, dst, data) in net.sent[mark:]:
+        p = unframe(data)
+        if p is not None and src != SPA_ADDR and p[2][:5] in GATED_VERBS + (b"STATU",):
+            seen.append((round(tm - t_fail, 2), p[2][:5].decode()))
+    if why is None and seen:
+        why = ("not-connected", f"connection attempt failed at {lost.decode()} (no CONNECTION_SPA_COMPLETE, events end "
+                                f"{events[-2:]}), yet {'the background loops' if api == 'background' else api} put {seen[:4]} on the wire")
+    with loop.running():
+        for x in tasks._tasks:
+            x.cancel()
+    loop.run_for(1.0)
+    loop.shutdown()
+    if why:
+        return (f"C06|gate|{api}|{why[0]}|failed-at={lost.decode()}", why[1], {"mode": "unconnected", "lost": lost, "api": api})
+    return None
+
+
 # ------------------------------------------------------------------------------------------
 
 
@@ -459,6 +545,11 @@ def run(ctx):
         for pr in pairs if not ctx.quick else pairs[:3]:
             for off in OFFSETS:
                 plans.append((pr, (0.0, off), R, 0.0, pr))
+    # the status-block request engine: every fate vector over its segments, alone and with a caller queued behind it
+    for R in (1, 2, 3):
+        plans.append((("status",), (0.0,), R, 0.0, ("status",)))
+    plans.append((("status", "ping"), (0.0, 0.05), 2, 0.0, ("status",)))
+    plans.append((("version", "status"), (0.0, 0.05), 2, 0.0, ("status",)))
     triples = [("version", "press", "watercare"), ("ping", "channel", "press")]
     for tr in triples:
         for o1, o2 in itertools.product(OFFSETS[:3] if ctx.quick else OFFSETS, repeat=2):
@@ -566,6 +657,15 @@ def run(ctx):
         raise core.HarnessError("gate scenarios never transmitted a command - vacuous")
     execs += len(jobs)
 
+    # B2: a spa whose connection attempt failed is not connected
+    ujobs = [(lost, api) for lost in (b"STATU", b"SFILE", b"CURCH", b"AVERS") for api in GATED + ["background"]]
+    for viol, job in zip(core.pmap(ctx, _unconnected_job, ujobs, chunksize=1), ujobs):
+        states.add(("unconnected", job, viol is None))
+        if viol:
+            ctx.violation(*viol)
+    ctx.set("failed_connection_gate_runs", len(ujobs))
+    execs += len(ujobs)
+
     ctx.set("states", len(states))
     ctx.set("transitions", execs)
     ctx.set("traces_validated_against_impl", execs)
@@ -591,6 +691,10 @@ def replay(ctx, data):
         ctx.merge_violations(res["violations"])
     elif m == "gate":
         v, _ = _gate_job((data["api"], data["offset"], data["queued"], data.get("active", False)))
+        if v:
+            ctx.violation(*v)
+    elif m == "unconnected":
+        v = _unconnected_job((data["lost"], data["api"]))
         if v:
             ctx.violation(*v)
     elif m == "latency":
